@@ -192,7 +192,7 @@ def gen_cases(ctx, budget_s, composite=True, max_trials=6, gen_fn=None, corpus=T
     t_end = ctx.elapsed() + budget_s
     n = 0
     pending = []
-    if corpus and gen_fn is None:
+    if corpus:
         pending = O.corpus_designs(ctx.big())
         # rotate with the seed so that a budget-limited run does not always see the same prefix
         k = (ctx.seed * 37) % max(len(pending), 1)
